@@ -388,7 +388,13 @@ func (g *generator) tokens(n int, inSub bool) {
 		case "template":
 			g.emit(tok{js.TemplateToken, "`" + templateChars(t) + "`", "template"})
 		case "comment":
-			body := rapid.SampledFrom([]string{"", "x", "*", "/", " * / ", "\n", "a\r\nb", "\u2028", "//", "é", "`", "'"}).Draw(t, "cbody")
+			// 1-3 pieces: stars, slashes and every line terminator in every adjacency (a terminator directly behind a star,
+			// a star directly in front of the closing one)
+			body := ""
+			for k := rapid.IntRange(0, 3).Draw(t, "cbodyn"); k > 0; k-- {
+				body += rapid.SampledFrom([]string{"", "x", "*", "/", " * / ", "\n", "a\r\nb", "\u2028", "\u2029", "\r", "//", "é", "`", "'", "**", "* ", "/*"}).Draw(t, "cbody")
+			}
+			body = strings.ReplaceAll(body, "*/", "* /")
 			tt := js.CommentToken
 			if strings.ContainsAny(body, "\n\r") || strings.Contains(body, "\u2028") || strings.Contains(body, "\u2029") {
 				tt = js.CommentLineTerminatorToken
@@ -548,7 +554,10 @@ func regexpBody(t *rapid.T) string {
 	var sb strings.Builder
 	sb.WriteString(first)
 	for n := rapid.IntRange(0, 5).Draw(t, "ren"); n > 0; n-- {
-		sb.WriteString(rapid.SampledFrom([]string{"a", "*", "+", "\\/", "\\\\", "[/]", "[^/\\]]", "[a-z/]", "(?:x)", "|", "\\[", "{1,2}", "é", "=", "'", "\"", "`", "//"[:1] + "x", "[//]", "\\ "}).Draw(t, "repart"))
+		sb.WriteString(rapid.SampledFrom([]string{"a", "*", "+", "\\/", "\\\\", "[/]", "[^/\\]]", "[a-z/]", "(?:x)", "|", "\\[", "{1,2}", "é", "=", "'", "\"", "`", "//"[:1] + "x", "[//]", "\\ ",
+			// inside a class an unescaped [ is an ordinary character (the class ends at the first unescaped ]); a class may
+			// start with ] only escaped; escaped backslashes in front of the closing bracket
+			"[[]", "[^[]", "[[/]", "[a[b/]", "[\\\\]", "[/\\\\]", "[\\]/]", "[]", "[^]", "[(]", "[)/]"}).Draw(t, "repart"))
 	}
 	s := sb.String()
 	// an unescaped "/" outside a class would end the literal: the parts above only contain it escaped or in a class,
